@@ -12,6 +12,7 @@ import Ymq.Lemmas.WiedemannBM
 import Ymq.Lemmas.BerlekampMasseyMg
 import Ymq.Lemmas.WiedemannDetz
 import Ymq.Lemmas.WiedemannWitness
+import Ymq.Lemmas.WiedemannKrylov
 
 namespace Ymq.C19Wied
 open Ymq.BM Ymq.Wied Polynomial Matrix
@@ -123,6 +124,56 @@ theorem detp4_false_zero_iff_deficient (p : ℕ) [hpf : Fact p.Prime] (hodd : p 
     obtain ⟨m1, _⟩ := core_minimal_list ok seq hr h2 L taps (by rw [hlen]; omega) t0 t1 t2 out c1
     exact l0 (m1 n hL)
 
+
+/-! ### `mulp` and the Krylov loop of the model -/
+
+/-- **`mulp`, one lane (`mulp_spec`).** `posW r`, `negW r` are the two sums whose maximum over
+the rows is `SparseMat::norm()`. If the lane's vector has `size` entries, each at most `Bd`, and
+`posW r · Bd < 2^63`, `negW r · Bd < 2^63` for every row (with `Bd = p - 1` this is the code's
+assumption `p · norm < 2^63`, `select_crtprimes`' `debug_assert!`), then for `0 < p < 2^63` no
+`i64` operation overflows in the checked profile, nothing panics, and the lane returns
+`(Σ_j M_ij v_j) mod p` for every row `i` — in matrix form `M · v` over `ZMod p`. The lanes of
+`mulp::<N>` do not interact (each lane is this function of its own modulus and vector). -/
+theorem mulp_spec (p : ℕ) (hp0 : 0 < p) (hp : (p : Int) < I63) (m : Mat) (v : List ℕ)
+    (hlen : v.length = m.length) (hcols : ∀ r ∈ m, ∀ je ∈ r, je.1 < m.length)
+    (Bd : Int) (hB0 : 0 ≤ Bd) (hv : ∀ j, ((v.getD j 0 : ℕ) : Int) ≤ Bd)
+    (hw : ∀ r ∈ m, posW r * Bd < I63 ∧ negW r * Bd < I63) :
+    ∃ out, mulpLane m p v = some out ∧ out.length = m.length ∧
+      (∀ i, out.getD i 0 = (rowDot (fun j => v.getD j 0) (m.getD i []) % (p : Int)).toNat) ∧
+      colOf p m.length out = matOf p m.length m * colOf p m.length v := by
+  refine ⟨_, mulpLane_spec m p hp0 hp v hlen Bd hB0 hv hw, by simp, fun i => ?_,
+    mulp_matrix m.length m hcols v hp0⟩
+  exact getD_map_zero _ (by simp [rowDot, sumSel]) m i
+
+/-- The bound matters: with `p · norm ≥ 2^63` the checked profile panics on an `i64` overflow
+(the release profile wraps and still returns the right residue when the true sum fits). -/
+theorem mulp_overflow_witness :
+    mulpLane [[(0, 32767), (0, 32767)]] 281474976710677 [281474976710676] = none := by
+  decide +kernel
+
+/-- **One lane of `_detp4`, from the matrix to the determinant.** For a validated matrix `m` of
+size `n ≥ 1`, an odd prime `p < 2^63` and a bound `Bd ≥ max(p - 1, 65536)` with
+`weight · Bd < 2^63` for every row: the Krylov loop does not panic and yields `2n` reduced terms
+`s_t = e_0 · M^t · v` (`M = matOf p n m`, `v` = the Fibonacci start vector); if the sequence has two
+non-zero terms, Berlekamp–Massey does not panic, and the lane returns `det M` whenever the
+returned polynomial has degree `n`, and 0 otherwise. -/
+theorem detp4_lane_of_model (p : ℕ) [hpf : Fact p.Prime] (hodd : p % 2 = 1) (hlt : p < 2 ^ 63)
+    (n : ℕ) (hn : 1 ≤ n) (m : Mat) (hm : m.length = n) (hcols : ∀ r ∈ m, ∀ je ∈ r, je.1 < n)
+    (Bd : Int) (hBp : (p : Int) ≤ Bd + 1) (hB65 : 65536 ≤ Bd)
+    (hw : ∀ r ∈ m, posW r * Bd < I63 ∧ negW r * Bd < I63) :
+    ∃ seq, krylov m p (2 * m.length + 1) (startVec m.length 0 1) [] = some seq ∧
+      seq.length = 2 * n ∧
+      (TwoTerms seq → ∃ out, bm p seq = some out ∧
+        (out.getD n 0 ≠ 0 → ∃ d, laneDet n p seq = some d ∧ d < p ∧
+          (d : ZMod p) = (matOf p n m).det) ∧
+        (out.getD n 0 = 0 → laneDet n p seq = some 0)) := by
+  have hp : p.Prime := hpf.out
+  have hpI : (p : Int) < I63 := by rw [I63_eq]; exact_mod_cast hlt
+  obtain ⟨seq, k1, k2, k3, k4⟩ := krylov_model_spec n hn m hm hcols hp.one_lt hpI Bd hBp hB65 hw
+  refine ⟨seq, k1, k2, fun h2 => ?_⟩
+  obtain ⟨out, o1, _, o3, o4⟩ := detp4_spec_full_complexity p hodd hlt n hn (matOf p n m)
+    (e0 p n) (colOf p n (startVec n 0 1)) seq k2 k3 k4 h2
+  exact ⟨out, o1, fun h => (o3 h).2, o4⟩
 
 /-! ### `detz`: CRT with termination on the first repeated value -/
 
